@@ -1,5 +1,7 @@
 import DeepModel.Driver.Proto
 import DeepModel.Model.Limiter
+import DeepModel.Model.LimiterTimed
+import DeepModel.Model.LimiterInstall
 open Lean Proto Limiter Extracted.Limiter
 
 def parseCfg (j : Json) : Except String Cfg := do
@@ -8,6 +10,16 @@ def parseCfg (j : Json) : Except String Cfg := do
   let ws := (← getOptInt j "window_start").getD 0
   let we := (← getOptInt j "window_end").getD 0
   pure ⟨fc, fp, ⟨ws, we⟩⟩
+
+def parseOp (j : Json) : Except String Op := do
+  match (← getStr j "op") with
+  | "hit" => pure (.hit ⟨← getInt j "ts", ← getBool j "cond"⟩)
+  | "update" => pure (.update (← getBool j "present"))
+  | "no_change" => pure .noChange
+  | "other_custom" => pure .otherCustom
+  | "register" => pure .register
+  | "unregister" => pure .unregister
+  | o => throw s!"unknown operation {o}"
 
 def handle (j : Json) : Except String Json := do
   let op ← getStr j "op"
@@ -46,6 +58,26 @@ def handle (j : Json) : Except String Json := do
     let sched ← (← getArr j "sched").toList.mapM (fun t => t.getNat?)
     let r := Conc.run cfg (Conc.init tss) sched
     pure (Json.mkObj [("collected", toJson r.collected), ("count", toJson r.st.count)])
+  | "concT" =>
+    -- threads with their own clock value and condition outcome; collections with their time stamps
+    let hits ← (← getArr j "hits").toList.mapM (fun h => do
+      let ts ← getInt h "ts"
+      let c ← getBool h "cond"
+      pure (Hit.mk ts c))
+    let sched ← (← getArr j "sched").toList.mapM (fun t => t.getNat?)
+    let r := ConcT.run cfg (ConcT.init hits) sched
+    pure (Json.mkObj [("collected", ints r.collectedAt.reverse), ("checked", ints (r.checked.reverse.map (·.ts))),
+                      ("count", toJson r.st.count), ("last", toJson r.st.last),
+                      ("mutex", Json.bool (ConcT.mutexOk cfg (ConcT.init hits) sched)), ("free", Json.bool r.free)])
+  | "ops" =>
+    -- one tracepoint among configuration changes: collections, and the statement's installations
+    let origin ← match (← getStr j "origin") with
+      | "service" => pure Origin.service
+      | "code" => pure Origin.code
+      | o => throw s!"unknown origin {o}"
+    let ops ← (← getArr j "ops").toList.mapM parseOp
+    pure (Json.mkObj [("collected", ints (runOps cfg origin ops)),
+                      ("installations", Json.arr ((installations origin ops).map (fun seg => ints (seg.map (·.ts)))).toArray)])
   | "parse" =>
     pure (Json.mkObj [("fire_count", toJson cfg.count), ("fire_period", toJson cfg.period)])
   | _ => throw s!"unknown op {op}"
